@@ -142,7 +142,9 @@ class HTMLParser(object):
 
             if self.innerHTML in cdataElements:
                 self.tokenizer.state = self.tokenizer.rcdataState
-            elif self.innerHTML in rcdataElements:
+            elif self.innerHTML in rcdataElements and (
+                    self.innerHTML != "noscript" or self.scripting):
+                # (noscript content is only raw text when scripting is enabled)
                 self.tokenizer.state = self.tokenizer.rawtextState
             elif self.innerHTML == 'plaintext':
                 self.tokenizer.state = self.tokenizer.plaintextState
